@@ -250,4 +250,47 @@ def Row.refutesGate (r : Row) : Bool :=
 def Row.refutesInc (r : Row) : Bool :=
   r.cert == .inconclusive && mayReport r (Opts.allBut .inconclusive env0) env0
 
+/-! ### value selection (ValueFlow::findValue — behind Token::getValueLE/GE, CheckStl, CheckType, two valueflow sites)
+
+A token carries a LIST of values; an emission site asks a selector for one of them and grades / gates the finding by it.  The
+selector is an option-dependent input of the guard: monotonicity of the reported findings needs the SELECTED value to be
+independent of the options (select, then gate).  `findValue` copies the loop of lib/valueflow.cpp; `findValueFiltered` is the
+shape in which the settings tests sit inside the loop (filter, then select). -/
+namespace Select
+
+structure Val where
+  inconclusive : Bool
+  condition : Bool      -- `v.condition != nullptr`
+  sel : Bool            -- `pred(v)`
+  tag : Nat             -- position in the list (identity of the value)
+  deriving DecidableEq, Repr, Inhabited
+
+/-- the loop: an unconditional conclusive match wins and stops; a conditional conclusive match replaces an inconclusive or
+conditional one; an inconclusive match only replaces an inconclusive one -/
+def selectAux (ret : Option Val) : List Val → Option Val
+  | [] => ret
+  | v :: rest =>
+    if v.sel then
+      let r := match ret with
+        | none => v
+        | some r => if r.inconclusive || (r.condition && !v.inconclusive) then v else r
+      if !r.inconclusive && !r.condition then some r else selectAux (some r) rest
+    else selectAux ret rest
+
+def select (vs : List Val) : Option Val := selectAux none vs
+
+/-- the two settings tests of findValue -/
+def gateVal (o : Opts) (v : Val) : Bool := (!v.inconclusive || o.inconclusive) && (!v.condition || o.sev .warning)
+
+/-- ValueFlow::findValue as it is: select with a fixed preference, THEN return nullptr if the settings disallow the value -/
+def findValue (o : Opts) (vs : List Val) : Option Val := (select vs).filter (gateVal o)
+
+/-- the other order: values the settings disallow are skipped inside the loop -/
+def findValueFiltered (o : Opts) (vs : List Val) : Option Val := select (vs.filter (gateVal o))
+
+def ofDigits (ds : List Nat) : List Val :=
+  (List.range ds.length).zip ds |>.map (fun p => { inconclusive := p.2.testBit 0, condition := p.2.testBit 1, sel := p.2.testBit 2, tag := p.1 })
+
+end Select
+
 end Cppcheck.SevGate
